@@ -65,12 +65,26 @@ def generate(rng, tier):
             cdir = "%s/i%d" % (root, n)
             items = [gen.gen_items(rng, plain, 0, maxitems=1) for _ in range(rng.randint(1, 7))]
             items = [it for it in items if it]
-            flat = [t for it in items for t in it]
             files = {}
+            counter = [0]
             use_sp = rng.random() < 0.4
             prefix = "" if not use_sp else ""
+            flat_items = list(items)
+            # includes inside section bodies (single sections exist since cfg_init, multi ones are created by the parse):
+            # the body of a section item is split into files as well
+            secs = [o for o in plain if o.ty == "sec" and not (o.flags & gen.KEYSTRVAL)]
+            for _k in range(rng.choice([0, 1, 1, 2]) if secs else 0):
+                o = rng.choice(secs)
+                subs_plain = [x for x in o.subs if x.name != "include"]
+                body = [gen.gen_items(rng, subs_plain, 0, maxitems=1) for _ in range(rng.randint(1, 4))]
+                body = [b for b in body if b]
+                head = [o.name.encode("latin1")] + ([gen.title_token(rng, rng.choice(gen.TITLES))] if o.flags & gen.TITLE else []) + [b"{"]
+                pos = rng.randint(0, len(items))
+                flat_items.insert(pos, head + [t for b in body for t in b] + [b"}"])
+                items.insert(pos, head + split_items(rng, body, rng.choice([1, 1, 2]), files, prefix, counter) + [b"}"])
+            flat = [t for it in flat_items for t in it]
             depth = rng.choice([1, 1, 2, 3, 5, 9, 10])
-            main = split_items(rng, items, depth, files, prefix, [0])
+            main = split_items(rng, items, depth, files, prefix, counter)
             lines = sl + ["CWD " + hx(cdir)]
             for name, toks in files.items():
                 lines.append("FILE %s reg %s" % (hx(("inc/" if use_sp else "") + name), hx(render_lines(rng, toks))))
